@@ -4,7 +4,7 @@ import re
 import serve_common as sc
 import vf
 
-ADDRS = ["98.51.100.10", "98.51.100.200", "98.51.101.5", "98.77.0.1", "10.1.2.3"]
+ADDRS = ["98.51.100.10", "98.51.100.200", "98.51.101.5", "98.77.0.1", "10.1.2.3", "98.51.0.9"]
 
 
 def ecs_family(ctx, thorough):
